@@ -54,6 +54,16 @@ CONTRACTS.update({
     params={'eflr_set_type': 'cls:ZoneSet', 'set_name': 'const:"N3"'}, returns='obj:ZSetT',
     ensures=[('a-new-set-is-created-and-registered', "self[ZoneSet]['N3'] is result and len(self[ZoneSet]) == 3"),
              ('named', "result.set_name == 'N3'"), ('others-untouched', "self[ZoneSet][None] is old(self[ZoneSet][None]) and self[ZoneSet]['N2'] is old(self[ZoneSet]['N2'])")]),
+ # C09 "each (type, name) at most once": for ANY requested name the set handed out is either one of the registered ones or a new one whose
+ # WRITTEN name (EFLRSet._make_set_component_bytes writes a name only when it is non-empty) differs from theirs
+ 'EFLRSetsDict.get_or_make_set[any-name]': dict(
+    target='EFLRSetsDict.get_or_make_set', props=['C09'], self_fields=ZREG['fields'],
+    params={'eflr_set_type': 'cls:ZoneSet', 'set_name': 'str?'}, returns='obj:ZSetT',
+    # registry invariant (kept by get_or_make_set[new] 'named', add_set and try_add_set): a set is registered under its own name
+    requires=["self[ZoneSet][None].set_name is None", "self[ZoneSet]['N2'].set_name == 'N2'"],
+    ensures=[('a-set-written-without-a-name-is-the-one-registered-as-unnamed', "implies(result.set_name is None or len(result.set_name) == 0, result is old(self[ZoneSet][None]))"),
+             ('a-set-written-under-a-registered-name-is-that-registered-set', "implies(result.set_name == 'N2', result is old(self[ZoneSet]['N2']))"),
+             ('registered-sets-kept', "self[ZoneSet][None] is old(self[ZoneSet][None]) and self[ZoneSet]['N2'] is old(self[ZoneSet]['N2'])")]),
  'EFLRSetsDict.try_add_set': dict(
     props=['C09', 'C18'], self_fields=ZREG['fields'], params={'eflr_set': 'obj:ZSetC'}, returns='bool',
     ensures=[('one-set-per-class-and-name', "result == (eflr_set.set_name is not None and eflr_set.set_name == 'N3')"),
@@ -126,6 +136,8 @@ CONTRACTS['LogicalFile.add_channel'] = dict(
               'result._dataset_name != self.channels[0].dataset_name and result._dataset_name != self.channels[1].dataset_name'),
              ('data-stored-under-that-name-only-after-the-item-was-built', "implies(data is not None, self._data_dict[result._dataset_name] is data)"),
              ('no-data-no-entry', 'implies(data is None, len(self._data_dict) == 0)')],
+    # frame (C20, C18): only the data dictionary of this logical file is written, and nothing at all by a rejected call
+    modifies=['self._data_dict'], exc_modifies=[],
     exc_ensures=[('rejected-call-stores-no-data', 'len(self._data_dict) == 0')])
 
 # ---------------------------------------------------------------------------------------------- add_frame pre-checks (C20, C12)
@@ -144,7 +156,7 @@ for _nm, _chs, _exc in (('two-channels', {'list': [DCH2, DCH2]}, None), ('a-non-
         stubs={'get_or_make_set': dict(returns='opq:eflrset'), 'try_add_set': dict(returns='bool')},
         # C12: an invalid channel list is rejected (by the pre-checks or by the item constructor - either is a rejection before the
         # item is registered, see EFLRItem.__init__); a valid one is not rejected by the pre-checks
-        raises={}, may_raise=['AnyException', 'TypeError', 'ValueError'],
+        raises={}, may_raise=['AnyException', 'TypeError', 'ValueError'], modifies=[], exc_modifies=[],
         ensures=([('invalid-channel-list-never-accepted', 'False')] if _exc else []))
 
 # ---------------------------------------------------------------------------------------------- DLISFile.write wiring (C01)
@@ -171,11 +183,16 @@ CONTRACTS['LogicalFile.next_available_origin_ref'] = dict(
     props=['C07', 'C09'], self_fields={}, params={'origin_reference': 'int?', 'origins': {'list': [ORG, ORG]}}, returns='int',
     raises={'RuntimeError': 'origin_reference is not None and origin_reference != 0 and (origin_reference == origins[0]._origin_reference or origin_reference == origins[1]._origin_reference)'},
     loops=[dict(inv=['next_available_origin_ref == at_entry(next_available_origin_ref) or at_entry(next_available_origin_ref) == origins[0]._origin_reference '
-                     'or at_entry(next_available_origin_ref) == origins[1]._origin_reference', 'next_available_origin_ref >= at_entry(next_available_origin_ref)'])],
+                     'or at_entry(next_available_origin_ref) == origins[1]._origin_reference', 'next_available_origin_ref >= at_entry(next_available_origin_ref)',
+                     'next_available_origin_ref > 0 or (origin_reference is not None and origin_reference != 0 and next_available_origin_ref == origin_reference '
+                     'and origin_reference != origins[0]._origin_reference and origin_reference != origins[1]._origin_reference)'])],
     # termination not proved (no variant)
     ensures=[('a-new-origin-reference-is-not-used-by-another-origin-of-the-logical-file',
               'result != origins[0]._origin_reference and result != origins[1]._origin_reference'),
-             ('explicit-reference-kept', 'implies(origin_reference is not None and origin_reference != 0, result == origin_reference)')])
+             ('explicit-reference-kept', 'implies(origin_reference is not None and origin_reference != 0, result == origin_reference)'),
+             # C07 'the defining origin unless the user chose another': every add_* method reads origin_reference=0 as "not given", so an
+             # origin the user can choose must not be numbered 0 (here: an origin added after two others)
+             ('a-later-origin-is-never-numbered-0-which-the-add-methods-read-as-not-given', 'result != 0')])
 FHI = {'cls': 'FileHeaderItem', 'fields': {'header_id': 'str'}}
 DO = {'cls': 'OriginItem', 'fields': {'name': 'str', 'file_id': {'cls': 'Attribute', 'fields': {'_value': 'oneof[none,str]'}}}}
 CONTRACTS['LogicalFile._check_defining_origin_params'] = dict(
